@@ -16,6 +16,7 @@ from vf import gen as G, oracle as O, props as P, snapshot as S
 from vf.checks.common import Case, call, exc_text
 
 ID = "C17"
+TECHNIQUE = "runtime monitoring: differential observation of the four constructors against one exact description; malformed-input monitor"
 LEVEL = "exploration"
 RULE = ("random closed curves (polygons int/Fraction/float, uniform-degree Bezier chains of degree 2-3 in float, mixed-degree "
         "chains, both orientations) built through every applicable constructor, plus malformed inputs: a chain whose end point "
